@@ -3,7 +3,8 @@ import WpModel.Drive.Resources
 import WpModel.Drive.ResourcesBg
 import WpModel.Drive.ResourcesSvg
 import WpModel.Drive.ResourcesPaint
+import WpModel.Drive.ResourcesSource
 
 def main : IO Unit :=
   Wp.Drive.runDriver [Wp.Drive.Resources.handle, Wp.Drive.ResourcesBg.handle, Wp.Drive.ResourcesSvg.handle,
-    Wp.Drive.ResourcesPaint.handle]
+    Wp.Drive.ResourcesPaint.handle, Wp.Drive.ResourcesSource.handle]
